@@ -50,7 +50,9 @@ a symbolic link, another is spelled with ".." and "//".
 
 The hash seeds are chosen by a pre-computation in sub-processes (tie names, the
 resource-key sets the launcher code iterates, the in_progress sets of the
-real-run witnesses): among the
+real-run witnesses, the sets of environment label names of the "env" stream --
+case key "env": chains of variables/labels referring to each other, compared
+across processes only): among the
 candidates, seeds that iterate the two-element sets of the "tie" parameter names
 ({"temp","TEMP"}, names equal up to case / underscores / digit suffix) in BOTH
 orders are always included.
@@ -94,7 +96,13 @@ VARIANTS = ["p0", "@LINK", "my runs/it's+a,b/\u00fc\u00e4 x", "@DOTS", "q1/deepe
 # instance-name sets of the real-run witnesses (corpus/C11/real_run_*.json): the in_progress
 # set of the poll in which their jobs finish together, in insertion (= submission) order
 NAME_SETS = [["sim_SIZE.10", "sim_SIZE.20", "sim_SIZE.30"], ["sim_SIZE.10", "sim_SIZE.20"],
-             ["gen_N.1", "gen_N.2", "run_TEMP.300.temp.1", "run_TEMP.400.temp.2"]]
+             ["gen_N.1", "gen_N.2", "run_TEMP.300.temp.1", "run_TEMP.400.temp.2"],
+             # sets of environment label NAMES (labels other labels refer to), in declaration order
+             ["BUILD", "BIN"], ["BIN", "BUILD"]]
+NAME_SETS_OPTIONAL = [["BUILD", "BIN", "TOOL"], ["TOOL", "BIN", "BUILD"], ["BIN", "TOOL"], ["PREFIX", "LIB"],
+                      ["LIB", "CFG"], ["PREFIX", "LIB", "CFG"], ["B_DIR", "C_DIR"], ["A_DIR", "B_DIR", "C_DIR"]]
+ENV_NAMES = ["ROOT", "BUILD", "BIN", "TOOL", "EXE"]
+ENV_NAMES2 = ["BASE", "PREFIX", "LIB", "CFG", "RUNNER"]
 # the StudyStep run keys handed to get_parallelize_command as **kwargs (nodes/procs
 # popped), in dict order; custom keys are appended in the order the case lists them
 RUN_KWARGS = ["cmd", "depends", "pre", "post", "restart", "gpus", "cores per task", "walltime", "reservation"]
@@ -217,6 +225,40 @@ def batch_block(case):
     return {"type": kind, "host": "h", "bank": "b", "queue": "q", "nodes": 2}
 
 
+def build_study(case, root):
+    """c08.build_study; with the case key "env" (ordered [kind, name, value]
+    entries, kind = variables | labels) the environment additionally holds those
+    entries, added the way YAMLSpecification.get_study_environment adds them:
+    the `variables` block first, then the `labels` block, each in document order."""
+    if not case.get("env"):
+        return c08.build_study(case, root)
+    from maestrowf.datastructures.core import Study, StudyStep, ParameterGenerator, StudyEnvironment
+    from maestrowf.datastructures.environment import Variable
+    env = StudyEnvironment()
+    env.add(Variable("OUTPUT_PATH", root))
+    env.add(Variable("SPECROOT", os.path.dirname(root)))
+    for kind in ("variables", "labels"):
+        for k, name, value in case["env"]:
+            if k == kind:
+                env.add(Variable(name, value))
+    params = ParameterGenerator()
+    for p in case["params"]:
+        if p.get("name"):
+            params.add_parameter(p["key"], list(p["values"]), p.get("label"), p["name"])
+        else:
+            params.add_parameter(p["key"], list(p["values"]), p.get("label"))
+    steps = []
+    for st in case["steps"]:
+        s = StudyStep()
+        s.name = st["name"]
+        s.description = st["description"]
+        for k, v in st["run"].items():
+            s.run[k] = v if not isinstance(v, list) else list(v)
+        steps.append(s)
+    return Study("c08_study", {"name": "c08_study", "description": "generated"},
+                 studyenv=env, parameters=params, steps=steps, out_path=root)
+
+
 def stage_flags(case, root):
     """Build, configure and stage the study the way maestro.run_study does, with
     the case's flags; with "via": "conductor" the staging is done by
@@ -226,7 +268,7 @@ def stage_flags(case, root):
     obs_root = root.rstrip("/") or "/"
     os.makedirs(os.path.dirname(obs_root), exist_ok=True)
     try:
-        study = c08.build_study(case, root)
+        study = build_study(case, root)
     except Exception as e:
         return {"ok": False, "err": 1, "exc": type(e).__name__, "msg": str(e)[:200]}, None, None, None, root
     cond, sdir = None, root
@@ -419,7 +461,9 @@ def probe_items():
             for b in RES_KEYS[i + 1:]:
                 items.append(("keyset%d:%s<%s" % (n, a, b), (a, b) == ("cores per task", "gpus")))
     for ns in NAME_SETS:
-        items.append(("in_progress{%s}" % ",".join(ns), True))
+        items.append(("set{%s}" % ",".join(ns), True))
+    for ns in NAME_SETS_OPTIONAL:
+        items.append(("set{%s}" % ",".join(ns), False))
     return items
 
 
@@ -430,7 +474,7 @@ def pick_seeds(n):
     both orders (for every key-set variant if possible); beyond that as many
     tie pairs / resource-key pairs as possible are ordered both ways."""
     import itertools
-    arg = json.dumps([TIE_PAIRS, KEYSETS, RES_KEYS, NAME_SETS])
+    arg = json.dumps([TIE_PAIRS, KEYSETS, RES_KEYS, NAME_SETS + NAME_SETS_OPTIONAL])
     items = probe_items()
 
     def probe(seed):
@@ -720,20 +764,62 @@ def gen_sched(rng):
     return case
 
 
+def gen_env(rng):
+    """an environment with a chain (or a diamond) of 2-5 variables/labels that
+    refer to each other, declared outermost first / innermost first / shuffled,
+    in the `variables` or the `labels` block; steps use the outermost and inner
+    ones in cmd / restart.  (Sequential passes may leave inner tokens unresolved
+    depending on the DECLARATION order: deterministic; only a difference between
+    processes counts.)"""
+    r = rng.random()
+    case = gen_wide(rng) if r < 0.3 else (c08.gen_case(rng, "valid") if r < 0.6 else gen_ties(rng))
+    case["stream"] = "env"
+    names = list(rng.choice([ENV_NAMES, ENV_NAMES2]))
+    if rng.random() < 0.2:                    # a diamond: D -> B, C -> A
+        ents = [["A_DIR", "/opt/a"], ["B_DIR", "$(A_DIR)/b"], ["C_DIR", "$(A_DIR)/c"],
+                ["D_PATH", "$(B_DIR):$(C_DIR)"]]
+        if rng.random() < 0.5:
+            ents.append(["E_CMD", "$(D_PATH)/run --lib $(B_DIR)"])
+    else:
+        n = rng.randint(2, 5)
+        ents = [[names[0], rng.choice(["/opt/proj", "/usr/local", "$(OUTPUT_PATH)/sw"])]]
+        for k in range(1, n):
+            ents.append([names[k], "$(%s)/%s" % (names[k - 1], names[k].lower())])
+    used = [e[0] for e in ents]
+    order = rng.choice(["outermost-first", "innermost-first", "shuffled"])
+    if order == "outermost-first":
+        ents.reverse()
+    elif order == "shuffled":
+        rng.shuffle(ents)
+    block = rng.choice(["variables", "labels", "mixed"])
+    case["env"] = [[(rng.choice(["variables", "labels"]) if block == "mixed" else block), a, b] for a, b in ents]
+    case["env_order"] = order
+    for k, st in enumerate(case["steps"]):
+        run = st["run"]
+        if k == 0 or rng.random() < 0.6:
+            run["cmd"] = "$(%s) %s" % (used[-1], run["cmd"])
+            if rng.random() < 0.5:
+                run["cmd"] += " --with $(%s)" % rng.choice(used)
+        if run.get("restart") or rng.random() < 0.3:
+            run["restart"] = "$(%s) --resume %s" % (rng.choice(used[-2:]), run.get("restart") or "")
+    return case
+
+
 def cross_only(case):
     """cases the Gallina model does not describe: processes against each other only"""
-    return bool(case.get("hashws")) or bool(case.get("real")) or (case.get("adapter") or "local") != "local"
+    return bool(case.get("hashws")) or bool(case.get("real")) or bool(case.get("env")) \
+        or (case.get("adapter") or "local") != "local"
 
 
 def case_key(case):
-    return json.dumps({k: case.get(k) for k in ("rlimit", "params", "steps", "hashws", "usetmp", "adapter", "via", "real", "faults")},
+    return json.dumps({k: case.get(k) for k in ("rlimit", "params", "steps", "hashws", "usetmp", "adapter", "via", "real", "faults", "env")},
                       sort_keys=True, default=str)
 
 
 def generate(rng, tier):
     quick = tier != "thorough"
-    n_tiny, n_valid, n_prefix, n_exotic, n_wide, n_ties, n_sched = \
-        (8, 18, 6, 10, 26, 18, 24) if quick else (100, 260, 70, 110, 340, 140, 200)
+    n_tiny, n_valid, n_prefix, n_exotic, n_wide, n_ties, n_sched, n_env = \
+        (8, 18, 6, 10, 26, 18, 24, 24) if quick else (100, 260, 70, 110, 340, 140, 200, 200)
     cases = load_corpus()
     tiny = c08.tiny_cases()
     rng.shuffle(tiny)
@@ -744,6 +830,7 @@ def generate(rng, tier):
     gen += [gen_wide(rng) for _ in range(n_wide)]
     gen += [gen_ties(rng) for _ in range(n_ties)]
     gen += [gen_sched(rng) for _ in range(n_sched)]
+    gen += [gen_env(rng) for _ in range(n_env)]
     for c in gen:                      # the flags: --hashws / --usetmp / through the Conductor / real run
         r = rng.random()
         if r < 0.25:
@@ -871,7 +958,7 @@ def run(ck):
         else:
             k = "%s:%s" % (o.get("err"), o.get("exc"))
             hist["errors"][k] = hist["errors"].get(k, 0) + 1
-        if case["stream"] in ("wide", "ties") and o.get("ok"):
+        if case["stream"] in ("wide", "ties", "env") and o.get("ok"):
             ck.sample({"case": clean(case), "impl_first_process": {"polls": x["polls"], "status": x["status"][:6],
                                                                    "names": [n["name"] for n in o["nodes"]]}}, limit=3)
         v = verdicts[i]
@@ -895,6 +982,9 @@ def run(ck):
                       "+ the 'sched' stream (slurm/lsf/flux batch block, steps with nodes/procs and optional resource keys "
                       "cores per task/gpus/walltime/reservation/exclusive/qos/... around $(LAUNCHER): script texts with "
                       "scheduler headers and launcher command lines, compared across processes only); "
+                      "+ the 'env' stream (environments with chains / a diamond of 2-5 variables/labels referring to each "
+                      "other, declared outermost first / innermost first / shuffled in the variables / labels blocks, used in "
+                      "cmd and restart; the Expand model has no environment: compared across processes only); "
                       "25%% of the generated cases are staged with hash_ws=True and 15%% with use_tmp=True; 35%% are staged and "
                       "polled by the Conductor (initialize + monitor_study, sleep stubbed; status.csv where the Conductor "
                       "writes it); 30%% are REAL runs against a scripted scheduler adapter registered in the plug-in registry "
@@ -919,7 +1009,8 @@ def search(ck):
     """Proof or correspondence broke: look for two processes that disagree, bigger budget, no Coq."""
     rng = random.Random(ck.seed + 104729)
     cases = [gen_wide(rng) for _ in range(250)] + [c08.gen_case(rng, "valid") for _ in range(150)] \
-        + [gen_ties(rng) for _ in range(150)] + [gen_sched(rng) for _ in range(200)]
+        + [gen_ties(rng) for _ in range(150)] + [gen_sched(rng) for _ in range(200)] \
+        + [gen_env(rng) for _ in range(200)]
     for k, c in enumerate(cases):
         if k % 3 == 0:
             c["hashws"] = True
